@@ -14,6 +14,11 @@ polls the task again.  A parked task is polled again only if its token was notif
 parked, un-notified task, optionally with a fresh token), which any executor may do.
 
 Channel flavours differ only in *whom a producer wakes* and in what an asynchronous send holds while suspended.
+
+The channels over the two-phase ring `AtomicMove` (uni movable / zero-copy atomic, Multi atomic) do not publish at the
+call: `Act.claim` takes a sequence number, the publication happens in claim order (`PLoc.pClm`, the `tail` CAS) and the
+length that decides the wake-up is measured afterwards by a fresh load of `head` (`PLoc.pSmp`, `len_after_publishing`).
+At the coarse replay granularity (ring hooks are not yield points) the driver runs the three steps back to back.
 Import-free.
 -/
 
@@ -37,6 +42,11 @@ inductive Rule where
   /-- a listener of the **log (mmap)** Multi channel: every listed listener is woken after every publication -/
   | all
   deriving DecidableEq, Repr
+
+/-- the channel's queue is the two-phase ring `AtomicMove`: publication and length measurement are separate steps -/
+def Rule.twoPhase : Rule → Bool
+  | .atomic | .m2 => true
+  | _ => false
 
 def Rule.target (r : Rule) (MAX lenAfter : Nat) : Option Nat :=
   match r with
@@ -62,6 +72,12 @@ inductive PLoc where
   | aSusp (v lenBefore : Nat)
   /-- zero-copy channels' `send_with_async`: pool slot allocated, setter suspended -/
   | zSusp (v : Nat)
+  /-- channels over the two-phase ring (`AtomicMove`): sequence number `slot` claimed and the payload written; at
+      `am.p.publish`: publish once every earlier claim is published (spins until then) -/
+  | pClm (v slot : Nat) (r : Rule)
+  /-- … published; at `am.p.len` (`len_after_publishing`): load `head`, then decide whom to wake by rule `r` (the entry
+      point's own: `send` / `send_with` use the channel's rule, the movable atomic `send_with_async` the plain window) -/
+  | pSmp (slot : Nat) (r : Rule)
   /-- `sm.wake`: read `wakers[j]` -/
   | wWake (j : Nat) (r : Res)
   /-- `sm.wake.lock`: about to take `wakers_lock` -/
@@ -161,6 +177,16 @@ def afterPublish (s : St) (t lenAfter : Nat) : St :=
 def stepP (s : St) (t : Nat) : St :=
   match s.thr t with
   | .idle | .done _ | .aSusp _ _ | .zSusp _ => s
+  -- the in-order publication CAS: succeeds only for the oldest outstanding claim
+  | .pClm v _ r =>
+      match s.resv with
+      | (t', _) :: rest =>
+          if t' = t then
+            setThr { s with q := s.q ++ [v], resv := rest, accepted := s.accepted ++ [v] } t (.pSmp s.accepted.length r)
+          else s
+      | [] => s
+  -- `max(1, slot + 1 - head)`: the elements up to and including the own one that nobody took yet
+  | .pSmp slot r => afterPublishR s r t (max 1 (slot + 1 - s.delivered.length))
   | .wWake j r =>
       match s.waker j with
       | some tk => setThr (notify s tk) t (.done r)
@@ -196,6 +222,9 @@ def stepS (s : St) (j : Nat) : St :=
 inductive Act where
   /-- `send` / `send_with` / `try_send_reserved` (publication is one atomic queue step, performed at the call) -/
   | send (t v : Nat)
+  /-- `send` / `send_with` of a channel over the two-phase ring: the call claims a sequence number and writes the payload;
+      publication and length measurement are the steps `pClm`, `pSmp` of `stepP` -/
+  | claim (t v : Nat)
   /-- `send_with`: as `send`, except that the crossbeam channel tests `is_full()` first and then returns without waking -/
   | sendWith (t v : Nat)
   /-- `reserve_slot` + fill + `try_send_reserved` answering `true` (one publication; rule `rsv`; the movable atomic
@@ -224,7 +253,7 @@ def apply (s : St) : Act → St
   | .send t v =>
       if s.thr t = .idle then
         if used s < s.N then
-          afterPublish { s with q := s.q ++ [v], accepted := s.accepted ++ [v] } t (s.q.length + s.resv.length + 1)
+          afterPublish { s with q := s.q ++ [v], accepted := s.accepted ++ [v] } t (s.q.length + 1)
         -- the crossbeam channel wakes stream 0 whenever the length it read was ≤ 2, also when the insertion then fails
         else if s.rule = .cb ∧ s.q.length ≤ 2 then setThr s t (.wWake 0 .full)
         else setThr s t (.done .full)
@@ -232,14 +261,19 @@ def apply (s : St) : Act → St
   | .sendWith t v =>
       if s.thr t = .idle then
         if used s < s.N then
-          afterPublish { s with q := s.q ++ [v], accepted := s.accepted ++ [v] } t (s.q.length + s.resv.length + 1)
+          afterPublish { s with q := s.q ++ [v], accepted := s.accepted ++ [v] } t (s.q.length + 1)
+        else setThr s t (.done .full)
+      else s
+  | .claim t v =>
+      if s.thr t = .idle then
+        if used s < s.N then setThr { s with resv := s.resv ++ [(t, v)] } t (.pClm v (s.accepted.length + s.resv.length) s.rule)
         else setThr s t (.done .full)
       else s
   | .sendRsv t v =>
       if s.thr t = .idle then
         if used s < s.N then
           afterPublishR { s with q := s.q ++ [v], accepted := s.accepted ++ [v] } .rsv t
-            (if s.zc then s.q.length + 1 else max 1 (s.q.length + s.resv.length))
+            (if s.zc then s.q.length + 1 else max 1 s.q.length)
         else setThr s t (.done .full)
       else s
   | .asyncMov t v =>
@@ -254,6 +288,10 @@ def apply (s : St) : Act → St
   | .resume t =>
       match s.thr t with
       | .aSusp v lenBefore =>
+          -- movable atomic channel: the setter completed, go on to publish (in claim order) and to measure the length
+          if s.rule = .atomic then setThr s t (.pClm v (s.accepted.length + (s.resv.takeWhile (fun x => x.1 != t)).length) .fs)
+          else
+          -- movable full-sync channel (the queue-wide lock was held all along): publish, wake by the length seen at reservation
           match s.resv with
           | (t', _) :: rest =>
               if t' = t then
@@ -262,6 +300,10 @@ def apply (s : St) : Act → St
               else s
           | [] => s
       | .zSusp v =>
+          -- the setter completed: hand the slot to the queue (over the two-phase ring: claim now, publish and measure next)
+          if s.rule.twoPhase then
+            setThr { s with resv := s.resv ++ [(t, v)], held := s.held - 1 } t (.pClm v (s.accepted.length + s.resv.length) s.rule)
+          else
           afterPublish { s with q := s.q ++ [v], held := s.held - 1, accepted := s.accepted ++ [v] } t (s.q.length + 1)
       | _ => s
   | .cancel t j => if s.thr t = .idle ∧ j < s.k then setThr s t (.cCancel j) else s
@@ -314,6 +356,8 @@ def tagOfP : PLoc → Option (String × Nat)
   | .wSpin _ _ => some ("sync.spin", 0)
   | .wRetry j _ => some ("sm.wake.retry", j)
   | .cCancel j => some ("sm.cancel", j)
+  | .pClm _ slot _ => some ("am.p.publish", slot)
+  | .pSmp slot _ => some ("am.p.len", slot)
   | _ => none
 
 def tagOfS (j : Nat) : SLoc → Option (String × Nat)
